@@ -201,7 +201,7 @@ GOTRANS = {"gocircuit": "GoCircuit", "gohopener": "GoHOpener", "gohcloser": "GoH
            "gonewrc": "GoNewRC", "gonewrp": "GoNewRP", "gorcwall": "GoRCWall", "gorpsnap": "GoRPSnap", "godbiter": "GoDBIter", "gosdvar": "GoSDVar",
            "gostatsrun": "GoStatsRun", "gostatsfb": "GoStatsFb", "gostatsfactory": "GoStatsFactory", "gostatsfind": "GoStatsFind",
            "goctor": "GoCtor", "goctorset": "GoCtorSet", "gocircmisc": "GoCircMisc", "gomanagerall": "GoManagerAll", "gotchook": "GoTCHook", "goslofactory": "GoSloFactory", "gorollingstore": "GoRollingStore", "goruni": "GoRunI",
-           "gohfaclayers": "GoHFacLayers", "gohfaccloser": "GoHFacCloser", "gohfacopener": "GoHFacOpener", "gohfacopenerset": "GoHFacOpenerSet", "gohfacnow": "GoHFacNow", "gohfacconsec": "GoHFacConsec", "gohfacnever": "GoHFacNever", "gofbi": "GoFbI"}
+           "gohfaclayers": "GoHFacLayers", "gohfaccloser": "GoHFacCloser", "gohfacopener": "GoHFacOpener", "gohfacopenerset": "GoHFacOpenerSet", "gohfacnow": "GoHFacNow", "gohfacconsec": "GoHFacConsec", "gohfacnever": "GoHFacNever", "gofbi": "GoFbI", "gomgri": "GoMgrI", "gomgriall": "GoMgrIAll"}
 
 def regenerate(name):
     """re-run an extractor on REPO's working tree and (re)write lean/Generated/<file> if it changed.
